@@ -98,6 +98,15 @@ impl TransportVisitor for V {
                         }
                         ws.set(0);
                     }
+                    // 4 = a slow device: the frame arrives after 1100 busy-wait iterations.
+                    4 if c.spins >= 1100 => {
+                        let mut f = vec![0u8; 12];
+                        f.extend([8u8; 20]);
+                        if c.held_count(0) > 0 {
+                            c.complete_held(0, 0, &f, f.len() as u32);
+                        }
+                        ws.set(0);
+                    }
                     _ => {}
                 }
                 for q in c.suppressed.clone() {
@@ -238,6 +247,17 @@ impl TransportVisitor for V {
                     if still != 0 && LEDGER_MODE.with(|m| m.get()) {
                         report(Violation::new("C04", "driver:returned-while-shared", format!("net driver: receive_wait returned {:?} with its buffer still shared with the device ({} live ranges)", r.map(|x| x.map(|_| ())), still)));
                     }
+                }
+                // A blocking receive served by a slow device (more than a thousand polls) which has
+                // suppressed notifications on the receive queue: waiting longer is no reason to
+                // notify it.
+                if sup.contains(&0) {
+                    let mut b4 = vec![0u8; 2048];
+                    co.borrow_mut().spin_horizon = 1300;
+                    wait_state.set(4);
+                    op!("receive_wait(slow device, notifications suppressed)", n.receive_wait(&mut b4));
+                    wait_state.set(0);
+                    co.borrow_mut().spin_horizon = 12;
                 }
                 // Two transmissions in flight: the second is submitted before the completion of
                 // the first (which the device has already used) has been consumed.
